@@ -124,3 +124,14 @@ Theorem C16_monitor_longrunning_sound : forall w acts,
   WorldMon.all_states (fun p => negb (WorldMon.sug_succeeded p)) (WorldC.project w) (MonSound.msteps w acts) = true.
 Proof. exact MonSound.longrunning_never_succeeded_model. Qed.
 Print Assumptions C16_monitor_longrunning_sound.
+
+(* The walk clause of the C16 monitor, over runs: the Succeeded condition of the STORED suggestion is withdrawn at a step only
+   if a restart was enabled in the STORED experiment at that state or at an earlier state of the history (the experiment
+   controller decides on a cached experiment, and the repair branch of F18 acts for an experiment that is running again:
+   invariant SwInv, Proofs/WorldSugRestart.v).  [sug_restart_walk] is evaluated on the implementation's projected states. *)
+From KV Require Proofs.WorldSugRestart.
+Theorem C16_monitor_sug_restart_sound : forall c acts,
+  valid_cfg c -> no_teardown acts ->
+  WorldMon.sug_restart_walk c false (WorldC.project (init c)) (MonSound.msteps (init c) acts) = true.
+Proof. exact WorldSugRestart.sug_restart_monitor_sound. Qed.
+Print Assumptions C16_monitor_sug_restart_sound.
